@@ -118,13 +118,17 @@ class StateMachineMatcher:
                         result = _convert(rule, values)
                         if result is None:
                             continue
-                        if websocket == rule.websocket and (
-                            rule.methods is None or method in rule.methods
-                        ):
-                            if rule.strict_slashes:
+                        if rule.strict_slashes:
+                            if websocket == rule.websocket and (
+                                rule.methods is None or method in rule.methods
+                            ):
                                 raise SlashRequired()
-                            else:
-                                return rule, result
+                        elif rule.methods is not None and method not in rule.methods:
+                            have_match_for.update(rule.methods)
+                        elif rule.websocket != websocket:
+                            websocket_mismatch = True
+                        else:
+                            return rule, result
                 return None
 
             part = parts[0]
